@@ -40,6 +40,8 @@ HASH_ITER = [
     "std::collections::hash::set::HashSet::<T, S>::retain", "std::collections::hash::set::HashSet::<T, S>::union",
     "std::collections::hash::set::HashSet::<T, S>::intersection", "std::collections::hash::set::HashSet::<T, S>::difference",
 ]
+HASH_ITER_METHODS = {"iter", "iter_mut", "keys", "values", "values_mut", "drain", "retain", "into_keys", "into_values", "extract_if",
+                     "union", "intersection", "difference", "symmetric_difference"}
 HASH_ITER_ALLOWED = {
     # function -> reason the iteration order cannot reach the output
     "jxl_render::filter::epf::apply_epf": "scatter by key: each (idx, group) writes sigma_grid_map[idx]; distinct keys, order-insensitive",
@@ -103,6 +105,9 @@ def rule_nondet(ctx):
             hit = None
             for n in names:
                 if n in HASH_ITER:
+                    hit = n
+                if n.startswith(("std::collections::hash::map::HashMap::<", "std::collections::hash::set::HashSet::<")) and \
+                        n.split("::")[-1] in HASH_ITER_METHODS:
                     hit = n
                 if n.startswith("<") and ("std::collections::hash::map::HashMap<" in n.split(" as ")[0] or "std::collections::hash::set::HashSet<" in n.split(" as ")[0]) \
                         and n.endswith("core::iter::traits::collect::IntoIterator>::into_iter"):
@@ -534,6 +539,11 @@ def main(pid, tier, repo=None):
         rule_parstate(ctx)
         rule_errslot(ctx)
         rule_lazy(ctx)
+        # concurrent callers of one image: the wake-up half of the handle protocol (shared with C20)
+        from . import proto
+        infos = proto.scan_all(ctx)
+        proto.rule_done_render(ctx, infos)
+        proto.rule_wait(ctx, infos)
     ctx.not_decided("bit-identity of samples across pool sizes (needs the disjointness arithmetic of into_groups*, value-level)")
     ctx.not_decided("idempotence of the relaxed-atomic group-offset cache (argued: every store is a function of the frame bytes)")
     return ctx.finish(
